@@ -95,6 +95,21 @@ var sites = []siteSpec{
 	{"pkg/v2/ocr.go", "ocrPlugin.Report"},
 	{"pkg/v2/ocr.go", "ocrPlugin.Observation"},
 	{"tools/simulator/util/sort.go", "SortedKeyMap.Keys"},
+	{"pkg/util/worker.go", "NewWorkerGroup"},
+	{"pkg/util/worker.go", "WorkerGroup.Do"},
+	{"pkg/util/worker.go", "WorkerGroup.Stop"},
+	{"pkg/util/worker.go", "WorkerGroup.runQueuing"},
+	{"pkg/util/worker.go", "WorkerGroup.doJob"},
+	{"pkg/util/worker.go", "worker.Do"},
+	{"pkg/util/worker.go", "WorkerGroup.storeResult"},
+	{"pkg/util/worker.go", "RunJobs"},
+	{"pkg/util/worker.go", "runWorkItem"},
+	{"pkg/v3/service/recoverable.go", "NewRecoverer"},
+	{"pkg/v3/service/recoverable.go", "recoverer.Close"},
+	{"pkg/v3/service/recoverable.go", "recoverer.serviceStart"},
+	{"pkg/v3/service/recoverable.go", "recoverer.recoverableStart"},
+	{"pkg/v3/tickers/time.go", "timeTicker.Start"},
+	{"pkg/v3/coordinator/coordinator.go", "coordinator.safeCheckEvents"},
 	{"pkg/v3/coordinator/coordinator.go", "coordinator.FilterProposals"},
 	{"pkg/v3/coordinator/coordinator.go", "coordinator.PreProcess"},
 	{"pkg/v3/coordinator/coordinator.go", "coordinator.FilterResults"},
